@@ -226,7 +226,11 @@ Inductive ncmd :=
   | NPipe (members : list (list ncmd)) (pf : bool) (* { m1; } | { m2; } | ... *)
   | NAsyncWait (body : list ncmd)                  (* { body; } & wait $! *)
   | NSubst (body : list ncmd)                      (* v=$( body ) *)
-  | NExit (st : N).                                (* exit st (inside a body only) *)
+  | NExit (st : N)                                 (* exit st (inside a body only) *)
+  | NBurst (n : nat).                              (* burst n: writes n bytes to its standard output;
+                                                      only used as a member of a pipeline that is not
+                                                      the last one, so its own status is never observed
+                                                      (the reader may have gone: EPIPE) *)
 
 (* (exit status, whether the enclosing shell has been left by `exit`) *)
 Fixpoint neval (c : ncmd) : N * bool :=
@@ -246,6 +250,7 @@ Fixpoint neval (c : ncmd) : N * bool :=
         end in
       (members ms 0%N, false)
   | NExit st => (st, true)
+  | NBurst _ => (0%N, false)
   end.
 
 Definition nest_expected (cmds : list ncmd) : list Z := map (fun c => Z.of_N (fst (neval c))) cmds.
